@@ -133,7 +133,8 @@ def run(ctx, spec):
 PROPS = {"C10": dict(
     lean_modules=["Vore.Props.C10"],
     theorems=["Vore.C10_terminates_callfree", "Vore.C10_spec_total", "Vore.C10_fuel_monotone",
-              "Vore.C10_spec_total_guarded", "Vore.C10_terminates_guarded", "Vore.C10_terminates_guardedB"],
+              "Vore.C10_spec_total_guarded", "Vore.C10_terminates_guarded", "Vore.C10_terminates_guardedB",
+              "Vore.C10_terminates_guarded_source"],
     run=run,
     manifest=dict(
         text="Proved in Lean for every program without subroutines and every input: the search returns (some fuel suffices, "
@@ -145,8 +146,7 @@ PROPS = {"C10": dict(
              "goes to a subroutine of strictly smaller rank, and predicates evaluate, then for every input the "
              "specification answers within call depth (|text|+1)*R and the VM on the generated code returns exactly that "
              "answer under every amount clause (lexicographic measure: text left at body entry, rank). PARTIAL: the "
-             "guardedness criterion is conservative (ranges, negated classes and consumption inside a callee are not "
-             "counted as guards); named loops are outside the resolved language; the two-pass generator is tied to "
+             "guardedness criterion is conservative (consumption inside a callee or a loop is not counted as a guard); named loops are outside the resolved language; the two-pass generator is tied to "
              "generate.go by L4 correspondence. Correspondence/search: the driver evaluates the criterion on every "
              "generated program with subroutines and the real engine must return wherever it holds; exhaustive enumeration of nullable nests (maybe, at least 0, "
              "anchors, negated anchors, not in, fewest, nested unbounded loops) to depth 2 (quick) / 3 (thorough) x all "
